@@ -272,6 +272,7 @@ func (c *Ctx) BVLit(v uint64, w int) *Term {
 	return c.mk(KLit, fmt.Sprintf("(_ bv%d %d)", v, w), BVSort(w))
 }
 
+func (t *Term) IsOpen() bool { return t.open }
 func (t *Term) IsTrue() bool  { return t.Kind == KLit && t.Op == "true" }
 func (t *Term) IsFalse() bool { return t.Kind == KLit && t.Op == "false" }
 func (t *Term) IntVal() (*big.Int, bool) {
@@ -1097,5 +1098,63 @@ func Symbols(t *Term, into map[string]bool, seen map[int]bool) {
 	}
 	for _, a := range t.Args {
 		Symbols(a, into, seen)
+	}
+}
+
+// RenameApp rebuilds t with applications of function `from` renamed to `to`.
+func (c *Ctx) RenameApp(t *Term, from, to string) *Term {
+	cache := map[*Term]*Term{}
+	var rec func(*Term) *Term
+	rec = func(t *Term) *Term {
+		if r, ok := cache[t]; ok {
+			return r
+		}
+		var r *Term
+		switch t.Kind {
+		case KConst, KLit, KVar:
+			r = t
+		case KQuant:
+			var pats [][]*Term
+			for _, ps := range t.Pats {
+				var np []*Term
+				for _, p := range ps {
+					np = append(np, rec(p))
+				}
+				pats = append(pats, np)
+			}
+			r = c.Quant(t.Op, t.Bound, rec(t.Args[0]), pats...)
+		default:
+			args := make([]*Term, len(t.Args))
+			for i, a := range t.Args {
+				args[i] = rec(a)
+			}
+			op := t.Op
+			if op == from {
+				op = to
+			}
+			r = c.mk(t.Kind, op, t.Sort, args...)
+		}
+		cache[t] = r
+		return r
+	}
+	return rec(t)
+}
+
+// FunSymbols collects names of applied (non-builtin) function symbols in t.
+func FunSymbols(t *Term, into map[string]bool, seen map[int]bool) {
+	if seen[t.ID] {
+		return
+	}
+	seen[t.ID] = true
+	if t.Kind == KApp && len(t.Args) > 0 {
+		into[t.Op] = true
+	}
+	for _, a := range t.Args {
+		FunSymbols(a, into, seen)
+	}
+	for _, ps := range t.Pats {
+		for _, p := range ps {
+			FunSymbols(p, into, seen)
+		}
 	}
 }
